@@ -165,7 +165,7 @@ impl Property for C09 {
     const ID: &'static str = "C09";
     const RULE: &'static str = "proptest-generated redirect walks: start URL, 0..10 hops each with a status from 300..=308 and a Location form (absolute same/other host/port/scheme, scheme-relative, absolute-path, \
 relative-path with dot segments, query-only, with fragment, empty, absent, unparsable, non-http scheme, non-UTF-8, back to start (cycle), self), a terminal status, max_redirections 0..8, follow on/off. The n-th \
-scripted response is served to the n-th connection; the model (walk + RFC 3986 5.2 resolver written from the RFC) predicts the number of requests, each request's connection target and request target, and the \
+scripted response is served to the n-th connection; the model (walk + RFC 3986 5.2 resolver written from the RFC) predicts the number of requests, each request's connection target, request target and Host field, and the \
 final outcome. non-trivial = >= 2 requests, or the bound hit exactly, or a relative reference with dot segments, or an authority change. The classes chain length == max and == max+1 are forced";
 
     fn assumptions() -> Vec<String> {
